@@ -198,7 +198,95 @@ func main() {
 		}
 	}
 	undecodableTwins(rep)
+	localBlobStoreRefuses(rep)
 	rep.Finish()
+}
+
+// localBlobStoreRefuses: "a backend failure while storing falls back to another place or fails the whole operation" for the
+// *local* backend: the shared blob table refuses every new row (a trigger raises an error, as a full disk, a lock that is
+// not released or a constraint would) while messages with out-of-line parts are delivered and appended. Every message that
+// is acknowledged must return its parts' own octets; one that cannot be stored must be refused.
+func localBlobStoreRefuses(rep *hx.Report) {
+	dir, err := os.MkdirTemp(filepath.Dir(hxWorkDir()), "raven-verif-c15r-")
+	if err != nil {
+		return
+	}
+	defer os.RemoveAll(dir)
+	old, _ := os.Getwd()
+	os.Chdir(dir)
+	defer os.Chdir(old)
+	w, err := world.New(dir, "example.com")
+	if err != nil {
+		rep.Violate("broken-correspondence", "world", err.Error(), nil)
+		return
+	}
+	defer w.Close()
+	shared := w.Mgr.GetSharedDB()
+	if _, err := shared.Exec("CREATE TRIGGER verif_refuse_blobs BEFORE INSERT ON blobs BEGIN SELECT RAISE(ABORT, 'injected: blob row refused'); END"); err != nil {
+		rep.Note("local-blob-refusal probe skipped: %v", err)
+		return
+	}
+	mk := func(user, tok, cte string, n int) string {
+		var body strings.Builder
+		for i := 0; body.Len() < n; i++ {
+			fmt.Fprintf(&body, "%s line %d of the large part\r\n", tok, i)
+		}
+		content := body.String()
+		return "From: a@example.org\r\nTo: " + user + "\r\nSubject: " + tok + "\r\nMIME-Version: 1.0\r\nContent-Type: multipart/mixed; boundary=rf\r\n\r\n--rf\r\nContent-Type: text/plain\r\n\r\nsmall " + tok + "\r\n--rf\r\nContent-Type: text/plain; name=\"" + tok + ".txt\"\r\nContent-Transfer-Encoding: " + cte + "\r\nContent-Disposition: attachment; filename=\"" + tok + ".txt\"\r\n\r\n" + content + "--rf--\r\n"
+	}
+	user := "refuse@example.com"
+	c := w.Login(user)
+	defer c.Close()
+	type sent struct {
+		tok, cte string
+		acked    bool
+	}
+	var all []sent
+	for i, cte := range []string{"8bit", "7bit", "binary", "8bit"} {
+		tok := fmt.Sprintf("REFUSE-%d", i)
+		rep.Case("local-blob-refusal|"+tok, true)
+		acked := false
+		if i%2 == 0 {
+			_, data := w.Deliver("a@example.org", []string{user}, mk(user, tok, cte, 3000))
+			acked = len(data) == 1 && strings.HasPrefix(data[0], "250")
+		} else {
+			acked = c.Append("INBOX", "", mk(user, tok, cte, 3000)).OK()
+		}
+		all = append(all, sent{tok, cte, acked})
+		if acked {
+			rep.Hit("local-blob-refusal:acknowledged")
+		} else {
+			rep.Hit("local-blob-refusal:refused")
+		}
+	}
+	shared.Exec("DROP TRIGGER verif_refuse_blobs")
+	c.Cmd("SELECT INBOX")
+	for _, m := range all {
+		seq := ""
+		for _, l := range c.Cmd("SEARCH SUBJECT " + m.tok).Untagged {
+			if f := strings.Fields(l); len(f) >= 3 {
+				seq = f[2]
+			}
+		}
+		if !m.acked {
+			if seq != "" {
+				rep.Violate("impl-violation", "a failure while storing fails the whole operation (Props.C15.store_fault_partial)", fmt.Sprintf("message %s was refused while the blob table refused rows, and is listed in INBOX", m.tok), []string{"local-blob-refusal"})
+			}
+			continue
+		}
+		if seq == "" {
+			rep.Violate("impl-violation", "a failure while storing falls back or fails (Props.C15.store_fault_partial)", fmt.Sprintf("message %s was acknowledged while the blob table refused rows, and is not in INBOX", m.tok), []string{"local-blob-refusal"})
+			continue
+		}
+		for _, item := range []string{"BODY.PEEK[2]", "BODY.PEEK[]"} {
+			txt := strings.Join(c.Cmd("FETCH "+seq+" ("+item+")").Untagged, "\n")
+			if !strings.Contains(txt, m.tok+" line 40 of the large part") {
+				rep.Violate("impl-violation", "a failure while storing falls back to another place or fails the whole operation (Props.C15.store_fault_partial)", fmt.Sprintf("message %s (%s part of 3000 octets) was acknowledged while the shared blob table refused every new row; %s does not return the part's text (%d octets answered): neither stored elsewhere nor refused", m.tok, m.cte, item, len(txt)), []string{"local-blob-refusal"})
+				return
+			}
+			rep.Hit("local-blob-refusal:own-content")
+		}
+	}
 }
 
 func runSeq(rep *hx.Report, rng *hx.Rng, o *hx.Opts, dS3, iS3 bool, faultAt string, faults []string, name string) {
